@@ -341,10 +341,11 @@ def readCells (ctx : Ctx) : Nat → Bytes → Nat → Res (List (Nat × Nat × V
 def parseDimensions (buf : Bytes) : Nat × Nat × Nat × Nat :=
   (u32le buf, u32le (buf.drop 8), u32le (buf.drop 4), u32le (buf.drop 12))
 
-/-- `Dimensions::len`: `(end − start) + 1` per axis with saturating subtraction, multiplied in `u64`
-    (cannot overflow: both factors are at most 2^32) -/
+/-- `Dimensions::len`: `(end − start) + 1` per axis with saturating subtraction (each at most 2^32), multiplied
+    in `u64` with `saturating_mul` (2^32 · 2^32 does not fit; an overflow panic before
+    `fix: Dimensions::len multiplied 2^32 rows by 2^32 columns …`). Only used to reserve capacity. -/
 def dimLen (d : Nat × Nat × Nat × Nat) : Res Nat :=
-  .ok ((d.2.2.1 - d.1 + 1) * (d.2.2.2 - d.2.1 + 1))
+  .ok (min ((d.2.2.1 - d.1 + 1) * (d.2.2.2 - d.2.1 + 1)) 18446744073709551615)
 
 /-- `XlsbCellsReader::new`: skip to BrtWsDim, read the dimensions, skip to BrtBeginSheetData.
     Result: `(dimensions, rest)` -/
